@@ -85,6 +85,12 @@ def attr_case(ck, I, rng, t, cases, metas):
         ck.count('crpix_off_detector', True)
     w = G.build_fits_wcs(I, g)
     extra = []
+    if t % 7 == 4:
+        # a header with an explicit, non-default native longitude of the celestial pole
+        w.wcs.lonpole = [150.0, 0.0, 90.0, -120.5][(t // 7) % 4]
+        w.wcs.set()
+        extra.append('LONPOLE=%g' % w.wcs.lonpole)
+        ck.count('explicit_lonpole', float(w.wcs.lonpole))
     if t % 3 == 0:
         add_lookup(I, w, g, rng)
         extra.append('lookup tables')
